@@ -15,11 +15,13 @@
    Declarative layer : Attribute / RootRel / Applicable / DeclOut / DeclExits - what C15 demands:
                        a `paths` glob is matched against the path relative to the root of the
                        repository that contains the file, whatever the cwd and the spelling are.
-   Operational layer : OpAttr / OpDisplay / OpOut - what the code does: project looked up in the
-                       cache of known projects, glob matched against the path as displayed
-                       (relative to the cwd, or as spelled when the argument is relative).
+   Operational layer : OpAttr / OpCfgPath / OpOut - what the code does: project looked up in the cache
+                       of known projects (segment-wise containment), glob matched against the path
+                       relative to that project's root (pathFromProjectRoot).
+   Disabled deviations: DevCwdOut (glob matched against the displayed, cwd-relative path) and DevPreOut
+                       (string-prefix project lookup) - the behaviour before the two fixes.
    `tc` = run vector + predicted surviving diagnostics per linted file + set of accepted exit statuses
-   (declarative) + the operational prediction and the deviation tags. *)
+   (declarative) + the operational prediction + what the two disabled deviations would print. *)
 EXTENDS Naturals, Sequences, FiniteSets, TLC, Json
 
 CONSTANTS N,          \* number of diagnostics per workflow file
@@ -183,23 +185,36 @@ OpAttrSeq(fs, i, known, strpre) ==
 OpAttrP(run, strpre) == IF RepoMode(run) THEN [i \in DOMAIN Named(run) |-> Attribute(Cwd(run))]
                         ELSE OpAttrSeq(Named(run), 1, <<>>, strpre)
 OpAttr(run) == OpAttrP(run, FALSE)
-\* the path handed to PathConfigs (and printed): Rel(cwd, path) when that works, else the argument as spelled
+\* the path that is printed: Rel(cwd, path) when that works, else the argument as spelled
 OpDisplay(run, i) == IF RepoMode(run) THEN Rel(Cwd(run), Named(run)[i])
                      ELSE IF Args(run)[i].abs THEN Rel(Cwd(run), Named(run)[i]) ELSE Args(run)[i].segs
-OpOutWith(run, i, root, disp) ==
-  FilterBy(AllIds, Range(run.cli) \cup EntryPats(CfgFor(run, root), disp))
-OpOut(run, i) == OpOutWith(run, i, OpAttr(run)[i], OpDisplay(run, i))
-OpOutPre(run, i) == OpOutWith(run, i, OpAttrP(run, TRUE)[i], OpDisplay(run, i))
+\* pathFromProjectRoot: the path handed to PathConfigs = the file relative to the root of the project it
+\* was attributed to; the displayed path when there is no project or the file is outside of it
+OpCfgPath(run, i, root) ==
+  LET f == Named(run)[i] IN
+  IF root # NoRepo /\ IsPrefix(root, f) THEN SubSeq(f, Len(root) + 1, Len(f)) ELSE OpDisplay(run, i)
+OpOutWith(run, i, root, cpath) ==
+  FilterBy(AllIds, Range(run.cli) \cup EntryPats(CfgFor(run, root), cpath))
+OpOut(run, i) == OpOutWith(run, i, OpAttr(run)[i], OpCfgPath(run, i, OpAttr(run)[i]))
 OpRemaining(run) == \E i \in DOMAIN Named(run) : OpOut(run, i) # <<>>
 OpExits(run) == CASE run.ff \in {"unknown", "badbool"} -> {2}
                   [] run.ff = "badregex" -> {3}
                   [] OTHER -> IF Fatal(run) THEN {3} ELSE IF OpRemaining(run) THEN {1} ELSE {0}
-\* why the code deviates from the property for the i-th file (names of the known deviations)
+
+(* Named deviations - NOT the code (disabled).  They are kept (a) as a vacuity guard: TLC must find a run
+   where each of them differs from the property (Filter_dev.cfg / Filter_dev2.cfg), and (b) so that the
+   check can name the site precisely if the real code ever falls back to one of them.
+   DevCwd : before "fix: `paths` globs of the config are matched against the path relative to the project
+            root" the glob was matched against the displayed path (cwd-relative, or as spelled).
+   DevPre : before "fix: Project.Knows no longer claims files of sibling directories sharing a name
+            prefix" the project cache was searched with strings.HasPrefix. *)
+DevCwdOut(run, i) == OpOutWith(run, i, OpAttr(run)[i], OpDisplay(run, i))
+DevPreOut(run, i) == LET root == OpAttrP(run, TRUE)[i] IN OpOutWith(run, i, root, OpCfgPath(run, i, root))
+\* which form of the DevCwd deviation the i-th file would show
 Tags(run, i) ==
   LET f == Named(run)[i] IN
-  (IF OpOutWith(run, i, Attribute(f), OpDisplay(run, i)) # DeclOut(run, f)
-     THEN {IF Cwd(run) = Attribute(f) THEN "paths-spelling" ELSE "paths-cwd"} ELSE {})
-  \cup (IF OpAttr(run)[i] # Attribute(f) THEN {"project-attribution"} ELSE {})
+  IF DevCwdOut(run, i) # DeclOut(run, f)
+    THEN {IF Cwd(run) = Attribute(f) THEN "paths-spelling" ELSE "paths-cwd"} ELSE {}
 
 ----------------------------------------------------------------------------
 (* Generator: one dimension per step *)
@@ -219,7 +234,8 @@ Vector(r, st) ==
           args |-> Args(r), cli |-> r.cli, cfg |-> CfgJson(r.cfg), cfgb |-> CfgJson(CfgB), ff |-> r.ff,
           lint |-> lint, exits |-> DeclExits(r), opexits |-> OpExits(r),
           files |-> IF lint THEN [i \in DOMAIN fs |->
-                       [name |-> FileName(fs[i]), path |-> fs[i], exp |-> DeclOut(r, fs[i]), op |-> OpOut(r, i), oppre |-> OpOutPre(r, i),
+                       [name |-> FileName(fs[i]), path |-> fs[i], exp |-> DeclOut(r, fs[i]), op |-> OpOut(r, i),
+                        devcwd |-> DevCwdOut(r, i), devpre |-> DevPreOut(r, i),
                         tags |-> Tags(r, i), rootrel |-> RootRel(fs[i]), display |-> OpDisplay(r, i)]]
                     ELSE <<>>])
 
@@ -308,16 +324,20 @@ ExitTable ==
   /\ (run.ff = "none" /\ ~Fatal(run)) =>
        DeclExits(run) = {IF \A i \in DOMAIN Named(run) : DeclOut(run, Named(run)[i]) = <<>> THEN 0 ELSE 1}
   /\ (run.ff = "none" /\ Fatal(run)) => DeclExits(run) = {3}
-\* the code-like layer agrees with the property when run from the repository root on plain/absolute
-\* spellings of files of that repository
-OpAgreesAtRoot ==
-  (Cwd(run) = RepoA /\ run.sp # "dot" /\ \A i \in DOMAIN Named(run) : Attribute(Named(run)[i]) = RepoA) =>
-    /\ \A i \in DOMAIN Named(run) : OpOut(run, i) = DeclOut(run, Named(run)[i])
-    /\ OpExits(run) \subseteq DeclExits(run)
-TagsExplain ==
-  \A i \in DOMAIN Named(run) : (Tags(run, i) = {}) => OpOut(run, i) = DeclOut(run, Named(run)[i])
-GlobTexts == \A g \in GlobNames : g \in DOMAIN Globs /\ g \in Range(GlobOrder)
-\* EXPECTED TO BE VIOLATED (cfg Filter_dev): the code-like layer equals the property everywhere
+\* the code-like layer (root-relative matching, segment-wise project lookup) satisfies the property
 OpEqualsDecl ==
-  \A i \in DOMAIN Named(run) : OpOut(run, i) = DeclOut(run, Named(run)[i])
+  /\ \A i \in DOMAIN Named(run) : OpOut(run, i) = DeclOut(run, Named(run)[i])
+  /\ OpExits(run) \subseteq DeclExits(run)
+\* the old cwd-relative matching agreed with the property from the repository root on plain/absolute
+\* spellings of files of that repository (why the test suite never saw it)
+DevCwdAgreesAtRoot ==
+  (Cwd(run) = RepoA /\ run.sp # "dot" /\ \A i \in DOMAIN Named(run) : Attribute(Named(run)[i]) = RepoA) =>
+    \A i \in DOMAIN Named(run) : DevCwdOut(run, i) = DeclOut(run, Named(run)[i])
+TagsExplain ==
+  \A i \in DOMAIN Named(run) : (Tags(run, i) = {}) <=> DevCwdOut(run, i) = DeclOut(run, Named(run)[i])
+GlobTexts == \A g \in GlobNames : g \in DOMAIN Globs /\ g \in Range(GlobOrder)
+\* EXPECTED TO BE VIOLATED (vacuity guards, cfg Filter_dev / Filter_dev2): the disabled deviations are real
+\* deviations inside the explored universe
+DevCwdEqualsDecl == \A i \in DOMAIN Named(run) : DevCwdOut(run, i) = DeclOut(run, Named(run)[i])
+DevPreEqualsDecl == \A i \in DOMAIN Named(run) : DevPreOut(run, i) = DeclOut(run, Named(run)[i])
 =============================================================================
